@@ -11,7 +11,6 @@
 //! pending backrefs (logical end, slice index, begin, len)*; then [live chunks, live bytes, every slice in live memory].
 use crate::util::*;
 use owning_iovec::{Backref, ByteArena, OwningIovec};
-use std::collections::BTreeMap;
 use std::io::Read;
 use std::num::NonZeroUsize;
 
@@ -24,7 +23,7 @@ struct Obj {
 
 struct World {
     objs: Vec<Option<Obj>>,
-    chunk_ids: BTreeMap<usize, i128>, // chunk start address -> sequential id (from 1)
+    base_serial: usize,               // chunks created before this case
     statics: Vec<(usize, usize)>,     // leaked caller buffers
     base_chunks: usize,
     base_bytes: usize,
@@ -35,24 +34,28 @@ fn leak(b: Vec<u8>) -> &'static [u8] {
 }
 
 impl World {
-    fn chunk_of(&mut self, addr: usize, len: usize) -> (i128, bool) {
+    // Chunks are numbered by creation order within the case (hook: creation serials), so that a chunk
+    // freed and another created at the same address are told apart.
+    fn chunk_of(&mut self, addr: usize, len: usize) -> (i128, usize, bool) {
         // which live chunk (if any) contains [addr, addr+len)
-        for (s, e) in ByteArena::verif_live_ranges() {
+        for (s, e, serial) in ByteArena::verif_live_chunks().0 {
             if s <= addr && addr + len <= e {
-                let n = self.chunk_ids.len() as i128 + 1;
-                let id = *self.chunk_ids.entry(s).or_insert(n);
-                return (id, true);
+                return ((serial - self.base_serial) as i128, s, true);
             }
         }
         let in_static = self.statics.iter().any(|(s, e)| *s <= addr && addr + len <= *e);
-        (0, in_static)
+        (0, 0, in_static)
     }
     fn chunk_id(&mut self, start: usize) -> i128 {
         if start == 0 {
             return 0;
         }
-        let n = self.chunk_ids.len() as i128 + 1;
-        *self.chunk_ids.entry(start).or_insert(n)
+        for (s, _, serial) in ByteArena::verif_live_chunks().0 {
+            if s == start {
+                return (serial - self.base_serial) as i128;
+            }
+        }
+        -1 // an anchor or a cache refers to a chunk that is not live
     }
 
     fn observe(&mut self, obs: &mut Obs) {
@@ -80,14 +83,13 @@ impl World {
                     let mut bytes = Vec::new();
                     let mut cids = Vec::new();
                     for (addr, l) in &slices {
-                        let (cid, valid) = self.chunk_of(*addr, *l);
+                        let (cid, start, valid) = self.chunk_of(*addr, *l);
                         mem_ok &= valid;
                         if valid {
                             let s = unsafe { std::slice::from_raw_parts(*addr as *const u8, *l) };
                             bytes.extend(s.iter().map(|b| *b as i128));
                         }
                         cids.push(cid);
-                        let start = self.chunk_ids.iter().find(|(_, v)| **v == cid).map(|(k, _)| *k).unwrap_or(0);
                         cids.push(if cid == 0 { 0 } else { (*addr - start) as i128 });
                     }
                     obs.push(bytes);
@@ -121,7 +123,7 @@ impl World {
 pub fn run(line: &str) -> Obs {
     let mut w = World {
         objs: (0..NOBJ).map(|_| None).collect(),
-        chunk_ids: BTreeMap::new(),
+        base_serial: ByteArena::verif_live_chunks().1,
         statics: Vec::new(),
         base_chunks: ByteArena::num_live_chunks(),
         base_bytes: ByteArena::num_live_bytes(),
